@@ -47,6 +47,7 @@ type FuncContract struct {
 	Ensures  []*Clause
 	Modifies []*Clause
 	Uses     []*Clause
+	UseRets  []*Clause
 	Decr     *Clause
 	Loops    map[int]*LoopContract
 	Inline   bool
@@ -114,7 +115,7 @@ func newContracts() *Contracts {
 var clauseKeywords = map[string]bool{
 	"spec": true, "pred": true, "axiom": true, "ghost": true, "func": true, "requires": true, "ensures": true,
 	"modifies": true, "use": true, "decreases": true, "inline": true, "trusted": true, "loop": true, "end": true,
-	"invariant": true, "package": true, "fnparam": true, "nullable": true, "pure": true, "nobody": true, "gaxiom": true,
+	"invariant": true, "package": true, "fnparam": true, "nullable": true, "pure": true, "nobody": true, "gaxiom": true, "useret": true,
 }
 
 var labelRe = regexp.MustCompile(`^\[([A-Za-z0-9,]*):([A-Za-z0-9_\-./]+)\]\s*`)
@@ -342,6 +343,15 @@ func (cs *Contracts) loadFile(path string, goFile bool) error {
 			for _, n := range strings.Split(rest, ",") {
 				cur.Nullable[strings.TrimSpace(n)] = true
 			}
+		case "useret":
+			if cur == nil {
+				return fail(fmt.Errorf("useret outside func"))
+			}
+			c, err := mkClause("use")
+			if err != nil {
+				return err
+			}
+			cur.UseRets = append(cur.UseRets, c)
 		case "requires", "ensures", "modifies", "use", "decreases", "invariant":
 			if cur == nil {
 				return fail(fmt.Errorf("%s outside func", kw))
